@@ -42,6 +42,9 @@ enum Kind {
     Window(u64),
     Static,
     Output,
+    /// a predicate prefix that is NOT registered as a component of the SDS (outside the
+    /// quantifier of the property; only used by the informational probe phase)
+    Unregistered,
 }
 
 #[derive(Clone, Debug)]
@@ -126,6 +129,7 @@ fn case_json(c: &Case) -> Value {
             Kind::Window(a) => format!("window {} alpha={}", k.iri, a),
             Kind::Static => format!("static {}", k.iri),
             Kind::Output => format!("output {}", k.iri),
+            Kind::Unregistered => format!("unregistered predicate prefix {}", k.iri),
         }).collect::<Vec<_>>(),
         "rules": c.rules.iter().map(|r| rule_str(c, r)).collect::<Vec<_>>(),
         "items": c.items.iter().map(|i| format!("{} @{}: {} {} {}", c.comps[i.win].iri, i.t, ent(i.s), local_name(i.p), ent(i.o))).collect::<Vec<_>>(),
@@ -195,6 +199,7 @@ fn build_sds(c: &Case, t: u64, order: &mut Rng) -> Sds {
             Kind::Output => {
                 sds.output_iris.insert(k.iri.clone());
             }
+            Kind::Unregistered => {}
         }
     }
     sds
@@ -384,6 +389,7 @@ fn role_of(c: &Case, orules: &[Rule], ex: &Expected, f: &Fact) -> &'static str {
         (Kind::Static, true, true) => "static_fact_also_derived",
         (Kind::Static, false, _) => "derived_into_static_component",
         (Kind::Output, _, _) => "derived_output_fact",
+        (Kind::Unregistered, _, _) => "fact_with_unregistered_prefix",
     }
 }
 
@@ -1104,7 +1110,7 @@ impl<'a> Gen<'a> {
                 match self.comps[a.comp].kind {
                     Kind::Window(_) => wpreds.push((a.comp, a.local)),
                     Kind::Static => spreds.push((a.comp, a.local)),
-                    Kind::Output => {}
+                    Kind::Output | Kind::Unregistered => {}
                 }
             }
         }
